@@ -148,6 +148,12 @@ pub struct Monitors {
     pub tmp_flow_before: Option<flow::FlowRec>,
     pub flow_event_all: Vec<bool>,
     pub batch_dirty: Vec<bool>,
+    /// (node, read context) -> number of times a MsgReadIndex carrying it was stepped there
+    pub read_forward_seen: DetMap<(usize, Vec<u8>), u32>,
+    /// request contexts released by acknowledgements of a re-queued duplicate request
+    pub read_released_by_requeued: DetSet<Vec<u8>>,
+    pub focus: Option<&'static str>,
+    pub fatal: bool,
 }
 
 const NO_TERM: u64 = u64::MAX;
@@ -187,11 +193,19 @@ impl Monitors {
             tmp_flow_before: None,
             flow_event_all: Vec::new(),
             batch_dirty: Vec::new(),
+            read_forward_seen: DetMap::default(),
+            read_released_by_requeued: DetSet::default(),
+            focus: None,
+            fatal: false,
         }
     }
 
+    /// Only a violation of the property under check ends an execution (with no focus, any
+    /// violation does). Violations of other properties are recorded (deduplicated, capped) and
+    /// the execution goes on, so that a defect which first trips another monitor can still
+    /// develop into a violation of the focus property.
     pub fn has_fatal(&self) -> bool {
-        !self.violations.is_empty()
+        self.fatal
     }
 
     pub fn violation(
@@ -203,10 +217,19 @@ impl Monitors {
         node: u64,
         step: usize,
     ) {
+        let sig = format!("{}:{}:{}", prop, monitor, sig);
+        let is_focus = self.focus.map_or(true, |f| f == prop);
+        if !is_focus {
+            if self.violations.len() >= 16 || self.violations.iter().any(|v| v.sig == sig) {
+                return;
+            }
+        } else {
+            self.fatal = true;
+        }
         self.violations.push(Violation {
             prop,
             monitor,
-            sig: format!("{}:{}:{}", prop, monitor, sig),
+            sig,
             detail,
             node,
             step,
